@@ -1,5 +1,6 @@
 import CogentModel.Json
 import CogentModel.Model.AnnotDb
+import CogentModel.Model.AnnotDbRoundTrip
 open CogentModel CogentModel.AnnotDb CogentModel.Gen.C17Sql
 
 def optStr : J → Except String (Option String)
@@ -151,6 +152,16 @@ def handle (cmd : String) (j : J) : Except String J :=
   | "gffload" => do
     let blocks ← (← j.get "blocks").toListOf (J.toListOf parseRow)
     pure (J.arr ((loadGffBlocks blocks).map recJ))
+  | "roundtrip" => do
+    -- serialisation routes on the record-list model
+    let db ← parseDb (← j.get "db")
+    let fb ← (← j.get "file_backed").toBool
+    match ← (← j.get "route").toStr with
+    | "json" => pure (dbJ (jsonRoundTrip db fb))
+    | "deepcopy" => pure (dbJ (deepcopyDb db fb))
+    | "pickle" => pure (dbJ (deepcopyDb db fb))
+    | "write" => pure (dbJ (writeLoad db))
+    | r => throw s!"bad route {r}"
   | "ops" => do
     let (dbs, err) ← runOps [] (← (← j.get "ops").toList)
     pure (J.obj [("dbs", J.arr (dbs.map dbJ)), ("err", ofOptStr err)])
